@@ -19,6 +19,30 @@ func (g *Generator) makeNew() {
 	g.data.TypeParamList = strings.Join(paramGroups, ", ")
 	g.data.TypeParamNameList = strings.Join(nameGroups, ", ")
 
+	//embedded pointer structs on the way to each promoted field: writes allocate them, reads test them
+	allocMap := make(map[string][]Alloc)
+	var embeds []*Field //the chain of embedded structs the current position is in
+	for _, f := range g.fields {
+		if int(f.depth) < len(embeds) {
+			embeds = embeds[:f.depth]
+		}
+		if f.isEmbeded {
+			embeds = append(embeds, f)
+			continue
+		}
+		if f.isShadowed || f.depth == 0 {
+			continue
+		}
+		var path []string
+		for _, e := range embeds {
+			path = append(path, e.name)
+			if e.isPtr {
+				allocMap[f.name] = append(allocMap[f.name], Alloc{Path: strings.Join(path, "."), Type: e.qualifiedType})
+			}
+		}
+	}
+	g.data.AllocMap = allocMap
+
 	var allList []string
 	nameMap := make(map[string]string)
 	usedParams := make(map[string]bool)
